@@ -346,6 +346,12 @@ def run_job(scr, job, small=False, trace_prop=None, timeout=None):
             rc, so, se, _, _ = run(cmd, cwd=wd)
             _must(rc, "goto-cc(late link)", so, se)
             cur = c_gb
+        # Drop functions unreachable from the harness: their obligations would be
+        # vacuously "discharged" and inflate the counts.
+        d_gb = os.path.join(wd, "d.gb")
+        rc, so, se, _, _ = run(["goto-instrument", "--drop-unused-functions", cur, d_gb], cwd=wd)
+        _must(rc, "goto-instrument --drop-unused-functions", so, se)
+        cur = d_gb
         res.binary = cur
 
         # remaining loops must be covered by a declared constant bound
